@@ -2,6 +2,7 @@ package main
 
 import (
 	"fmt"
+	"go/token"
 	"go/types"
 	"sort"
 	"strings"
@@ -116,12 +117,24 @@ func ruleScale(c *Ctx) {
 				}
 			})
 			recvAlloc, _, isAlloc := rootAlloc(mc.Bindings[0])
-			if real == nil || !isAlloc || len(real.Params) != 3 {
+			byValue := false
+			if ld, isLd := mc.Bindings[0].(*ssa.UnOp); isLd && !isAlloc && ld.Op == token.MUL {
+				// a value receiver: a copy of the struct built here
+				if _, _, ok := rootAlloc(ld.X); ok {
+					byValue = true
+				}
+			}
+			if real == nil || !(isAlloc || byValue) || len(real.Params) != 3 {
 				c.Undecided(R4, name+"/wrap", call.Pos(), "method value whose receiver is not a struct built here")
 				continue
 			}
-			ptrAlias[real.Params[0]] = recvAlloc
-			defer delete(ptrAlias, real.Params[0])
+			if byValue {
+				valAlias[real.Params[0]] = mc.Bindings[0]
+				defer delete(valAlias, real.Params[0])
+			} else {
+				ptrAlias[real.Params[0]] = recvAlloc
+				defer delete(ptrAlias, real.Params[0])
+			}
 			cl = real
 			c.Fn(c.P.FuncName(cl))
 			n.Bind[cl.Params[1]], n.Bind[cl.Params[2]] = "x", "y"
@@ -172,42 +185,97 @@ func ruleScale(c *Ctx) {
 			n.Bind[mcall] = "M"
 		}
 		seen := map[string]bool{}
-		for _, ret := range returnsOf(fn) {
-			rc := n.ReachCond(fn, nil, ret.Block())
-			if isNilConst(ret.Results[0]) {
-				c.expectCond(R3, "barcode.ScaleWithFill/unsupported", ret.Pos(), rc, "M.Dimensions != 1 && M.Dimensions != 2")
-				c.Check(R3, "barcode.ScaleWithFill/unsupported-error", ret.Pos(), !isNilConst(ret.Results[1]), "non-nil error", ret.Results[1].String())
-				seen["err"] = true
-				continue
+		// the routine may be picked by a helper that returns it as a function value: one pass per
+		// alternative of that selection
+		type selCase struct {
+			sel  ssa.Value
+			val  Poly
+			cond *Cond
+		}
+		sels := []selCase{{nil, nil, cTrue}}
+		eachInstr(fn, func(b *ssa.BasicBlock, ins ssa.Instruction) {
+			call, ok := ins.(*ssa.Call)
+			if !ok || len(sels) > 1 {
+				return
 			}
-			ex0, ok0 := ret.Results[0].(*ssa.Extract)
-			ex1, ok1 := ret.Results[1].(*ssa.Extract)
-			if !ok0 || !ok1 || ex0.Tuple != ex1.Tuple || ex0.Index != 0 || ex1.Index != 1 {
-				c.Check(R3, "barcode.ScaleWithFill/return", ret.Pos(), false, "both results of one scaleNDCode call", ret.String())
-				continue
+			if _, isFn := call.Type().Underlying().(*types.Signature); !isFn {
+				return
 			}
-			call, _ := ex0.Tuple.(*ssa.Call)
-			cal := calleeOf(call)
-			if cal == nil {
-				c.Check(R3, "barcode.ScaleWithFill/return", ret.Pos(), false, "static call", ret.String())
-				continue
+			if hc, idx, ok := expandableCall(call, n); ok {
+				sels = nil
+				for _, cs := range n.callCases(hc, idx, 0) {
+					sels = append(sels, selCase{call, cs.val, cs.cond})
+				}
 			}
-			cn := c.P.FuncName(cal)
-			want := map[string]string{"barcode.scale1DCode": "M.Dimensions == 1", "barcode.scale2DCode": "M.Dimensions == 2"}[cn]
-			if want == "" {
-				c.Check(R3, "barcode.ScaleWithFill/callee", ret.Pos(), false, "scale1DCode or scale2DCode", cn)
-				continue
+		})
+		errCond := cFalse
+		armCond := map[string]*Cond{}
+		armCall := map[string]*ssa.Call{}
+		var armName = map[string]string{}
+		for _, sc := range sels {
+			if sc.sel != nil {
+				n.env = append(n.env, map[ssa.Value]Poly{sc.sel: sc.val})
 			}
-			seen[cn] = true
-			c.expectCond(R3, "barcode.ScaleWithFill/"+cal.Name()+"-iff", call.Pos(), rc, want)
-			// the request is handed on completely (as scalars or grouped); which value plays which role
-			// inside is decided by X4, which analyses the callee in this calling context
-			var flat []string
-			for _, a := range flattenArgs(call.Common().Args) {
-				flat = append(flat, n.Norm(a).String())
+			for _, ret := range returnsOf(fn) {
+				rc := cAnd(sc.cond, n.ReachCond(fn, nil, ret.Block()))
+				if eq, _ := CondEquivalent(rc, cFalse); eq && sc.sel != nil {
+					continue
+				}
+				if isNilConst(ret.Results[0]) {
+					errCond = cOr(errCond, rc)
+					c.Check(R3, "barcode.ScaleWithFill/unsupported-error", ret.Pos(), !isNilConst(ret.Results[1]), "non-nil error", ret.Results[1].String())
+					seen["err"] = true
+					continue
+				}
+				ex0, ok0 := ret.Results[0].(*ssa.Extract)
+				ex1, ok1 := ret.Results[1].(*ssa.Extract)
+				if !ok0 || !ok1 || ex0.Tuple != ex1.Tuple || ex0.Index != 0 || ex1.Index != 1 {
+					c.Check(R3, "barcode.ScaleWithFill/return", ret.Pos(), false, "both results of one scaleNDCode call", ret.String())
+					continue
+				}
+				call, _ := ex0.Tuple.(*ssa.Call)
+				cal := calleeOf(call)
+				if cal == nil && call != nil && sc.sel != nil && call.Common().Value == sc.sel {
+					// the selected routine
+					if nm := sc.val.asAtom(); strings.HasPrefix(nm, "func:") {
+						cal = c.P.Func(strings.TrimPrefix(nm, "func:"))
+					}
+				}
+				if cal == nil {
+					c.Check(R3, "barcode.ScaleWithFill/return", ret.Pos(), false, "static call", ret.String())
+					continue
+				}
+				cn := c.P.FuncName(cal)
+				if cn != "barcode.scale1DCode" && cn != "barcode.scale2DCode" {
+					c.Check(R3, "barcode.ScaleWithFill/callee", ret.Pos(), false, "scale1DCode or scale2DCode", cn)
+					continue
+				}
+				seen[cn] = true
+				if armCond[cn] == nil {
+					armCond[cn] = cFalse
+				}
+				armCond[cn] = cOr(armCond[cn], rc)
+				armCall[cn], armName[cn] = call, cal.Name()
+				// the request is handed on completely (as scalars or grouped); which value plays which role
+				// inside is decided by X4, which analyses the callee in this calling context
+				var flat []string
+				for _, a := range flattenArgs(call.Common().Args) {
+					flat = append(flat, n.Norm(a).String())
+				}
+				sort.Strings(flat)
+				c.Check(R3, "barcode.ScaleWithFill/"+cal.Name()+"-args", call.Pos(), fmt.Sprint(flat) == "[H W bc fill]", "(bc, W, H, fill)", fmt.Sprint(flat))
 			}
-			sort.Strings(flat)
-			c.Check(R3, "barcode.ScaleWithFill/"+cal.Name()+"-args", call.Pos(), fmt.Sprint(flat) == "[H W bc fill]", "(bc, W, H, fill)", fmt.Sprint(flat))
+			if sc.sel != nil {
+				n.env = n.env[:len(n.env)-1]
+			}
+		}
+		if seen["err"] {
+			c.expectCondC(R3, "barcode.ScaleWithFill/unsupported", fn.Pos(), errCond, MustRefCond("M.Dimensions != 1 && M.Dimensions != 2"))
+		}
+		for cn, want := range map[string]string{"barcode.scale1DCode": "M.Dimensions == 1", "barcode.scale2DCode": "M.Dimensions == 2"} {
+			if armCond[cn] != nil {
+				c.expectCondC(R3, "barcode.ScaleWithFill/"+armName[cn]+"-iff", armCall[cn].Pos(), armCond[cn], MustRefCond(want))
+			}
 		}
 		c.Check(R3, "barcode.ScaleWithFill/arms", fn.Pos(), len(seen) == 3, "1D arm, 2D arm, error arm", fmt.Sprint(seen))
 	}
@@ -334,6 +402,15 @@ func ruleScale(c *Ctx) {
 			bindByType(n, fn, roleSpec{"W", isIntType}, roleSpec{"H", isIntType})
 			n.AtomAlias["call:image.Rect(0,0,W,H)"] = "rect"
 		}
+		// (or the struct arrives ready-made as a value: its fields carry the three roles)
+		for _, p := range fn.Params {
+			if namedTypeName(p.Type()) == "barcode.scaledBarcode" {
+				if _, isStruct := p.Type().Underlying().(*types.Struct); isStruct {
+					n.Bind[p] = "base"
+					n.AtomAlias["base.wrapped"], n.AtomAlias["base.wrapperFunc"], n.AtomAlias["base.rect"] = "wrapped", "wrap", "rect"
+				}
+			}
+		}
 		// stores of the three fields
 		var base *ssa.Alloc
 		fields := map[string]string{}
@@ -354,6 +431,18 @@ func ruleScale(c *Ctx) {
 			stt := a.Type().Underlying().(*types.Pointer).Elem().Underlying().(*types.Struct)
 			fields[fname(stt.Field(fa.Field))] = n.Norm(st.Val).asAtom()
 		})
+		if len(fields) == 0 {
+			fields = scaledWhole(n, fn)
+			eachInstr(fn, func(b *ssa.BasicBlock, ins ssa.Instruction) {
+				if st, ok := ins.(*ssa.Store); ok {
+					if a, ok := st.Addr.(*ssa.Alloc); ok && namedTypeName(a.Type()) == "barcode.scaledBarcode" {
+						if _, isParam := st.Val.(*ssa.Parameter); isParam {
+							base = a
+						}
+					}
+				}
+			})
+		}
 		want := map[string]string{"wrapped": "wrapped", "wrapperFunc": "wrap", "rect": "rect"}
 		c.Check(R1, "barcode.newScaledBC/fields", fn.Pos(), fmt.Sprint(fields) == fmt.Sprint(want), fmt.Sprint(want), fmt.Sprint(fields))
 		for _, ret := range returnsOf(fn) {
@@ -408,6 +497,39 @@ func scaledFields(n *Normer, fn *ssa.Function) map[string]string {
 		}
 		stt := a.Type().Underlying().(*types.Pointer).Elem().Underlying().(*types.Struct)
 		fields[fname(stt.Field(fa.Field))] = n.Norm(st.Val).asAtom()
+	})
+	if len(fields) == 0 {
+		for name, v := range scaledWhole(n, fn) {
+			fields[name] = v
+		}
+	}
+	return fields
+}
+
+// scaledWhole: newScaledBC receives the scaledBarcode as a struct value and keeps it as a whole: the
+// fields are those of the argument (in the calling context, or named after the parameter).
+func scaledWhole(n *Normer, fn *ssa.Function) map[string]string {
+	fields := map[string]string{}
+	eachInstr(fn, func(b *ssa.BasicBlock, ins ssa.Instruction) {
+		st, ok := ins.(*ssa.Store)
+		if !ok {
+			return
+		}
+		a, ok := st.Addr.(*ssa.Alloc)
+		if !ok || namedTypeName(a.Type()) != "barcode.scaledBarcode" {
+			return
+		}
+		if _, isParam := st.Val.(*ssa.Parameter); !isParam {
+			return
+		}
+		stt := a.Type().Underlying().(*types.Pointer).Elem().Underlying().(*types.Struct)
+		for i := 0; i < stt.NumFields(); i++ {
+			if p, ok := n.fieldOf(st.Val, i, 0); ok {
+				fields[fname(stt.Field(i))] = p.asAtom()
+			} else {
+				fields[fname(stt.Field(i))] = n.atom(n.Norm(st.Val).asAtom() + "." + fname(stt.Field(i))).asAtom()
+			}
+		}
 	})
 	return fields
 }
